@@ -538,7 +538,7 @@ pub fn edit_models(rng: &mut Rng, m: &mut Vec<TableDef>, profile: Profile) -> &'
         }
         return "big_step";
     }
-    match rng.below(24) {
+    match rng.below(26) {
         0 => {
             // add table
             let mut pool: Vec<&str> = TABLE_POOL.to_vec();
@@ -945,6 +945,43 @@ pub fn edit_models(rng: &mut Rng, m: &mut Vec<TableDef>, profile: Profile) -> &'
                 return "drop_column_named_like_fk_target";
             }
             "noop"
+        }
+        24 | 25 => {
+            // two existing tables with a same-named column: in ONE step the alphabetically earlier table drops the column while the later
+            // table keeps it but removes its single-column index on it (first call: set the situation up)
+            let has_plain = |t: &TableDef, n: &str| t.columns.iter().any(|c| c.name == n);
+            let mut names: Vec<String> = m.iter().map(|t| t.name.clone()).collect();
+            names.sort();
+            for ai in 0..names.len() {
+                for bi in (ai + 1)..names.len() {
+                    let (an, bn) = (names[ai].clone(), names[bi].clone());
+                    let a = m.iter().position(|t| t.name == an).unwrap();
+                    let b = m.iter().position(|t| t.name == bn).unwrap();
+                    if has_plain(&m[a], "shared_ref") && m[b].columns.iter().any(|c| c.name == "shared_ref" && matches!(c.index, Some(StrOrBoolOrArray::Bool(true)))) {
+                        m[a].columns.retain(|c| c.name != "shared_ref");
+                        for c in m[b].columns.iter_mut() {
+                            if c.name == "shared_ref" {
+                                c.index = None;
+                            }
+                        }
+                        return "drop_column_and_unindex_namesake";
+                    }
+                }
+            }
+            if m.len() < 2 {
+                return "noop";
+            }
+            let a = m.iter().position(|t| t.name == names[0]).unwrap();
+            let b = m.iter().position(|t| t.name == names[names.len() - 1]).unwrap();
+            if !has_plain(&m[a], "shared_ref") {
+                m[a].columns.push(col("shared_ref", ColumnType::Simple(SimpleColumnType::Integer), true));
+            }
+            if !has_plain(&m[b], "shared_ref") {
+                let mut c = col("shared_ref", ColumnType::Simple(SimpleColumnType::Integer), true);
+                c.index = Some(StrOrBoolOrArray::Bool(true));
+                m[b].columns.push(c);
+            }
+            "add_namesake_columns"
         }
         14 => {
             // add FK to another table
